@@ -2,9 +2,10 @@
 
   inproc          in this process;
   sub-h<N>        in a fresh interpreter with PYTHONHASHSEED=N (hv/scenarios/subrun.py);
-  after-activity  in this process after unrelated activity: other scenarios built and run first, spare
-                  Events created (global creation counter advanced), junk allocated, and a second
-                  Simulation constructed between building and running the first;
+  after-activity  in this process after unrelated activity: other scenarios built and run first, a
+                  simulation whose handler RAISED (the exception is caught by the caller, as a user's
+                  notebook would), spare Events created (global creation counter advanced), junk
+                  allocated, and a second Simulation constructed between building and running the first;
   wallclock       in this process with time.time / time.monotonic / perf_counter (and the _ns forms)
                   replaced by a clock that jumps forward by minutes at every call.
 
@@ -51,9 +52,11 @@ def unrelated_activity(scen):
     for n in picks:
         try:
             run_scenario(n, fams[n].gen_cfg(rng), rng.randrange(2**31), keep_pushes=False, keep_deliveries=False,
-                         total_cap=20000)
+                         total_cap=8000)
         except Exception:
             pass
+    # 1b. an earlier simulation that died: a handler raised in the middle of the run and the caller caught it
+    failed_simulation(rng)
     # 2. the module-level RNGs have been used
     random.random()
     try:
@@ -64,6 +67,46 @@ def unrelated_activity(scen):
         pass
     # 3. junk that stays alive, so object addresses / id() order differ
     _KEEP.append([object() for _ in range(rng.randrange(1000, 5000))])
+
+
+def failed_simulation(rng):
+    """build and run a small simulation whose handler raises after a few events; the exception escapes `run()` and is
+    caught here.  Whatever run() set up for its own duration (active heap / clock / creation counter, logging hooks)
+    must not leak into the next simulation of the process."""
+    from happysimulator.core.entity import Entity
+    from happysimulator.core.event import Event
+    from happysimulator.core.simulation import Simulation
+    from happysimulator.core.temporal import Instant
+
+    class Faulty(Entity):
+        def __init__(self, name, die_at, as_generator):
+            super().__init__(name)
+            self.seen, self.die_at, self.as_generator = 0, die_at, as_generator
+
+        def _step(self, event):
+            self.seen += 1
+            if self.seen >= self.die_at:
+                raise ValueError("bad record in input")
+            return [Event(time=event.time + 0.1, event_type="step", target=self)]
+
+        def handle_event(self, event):
+            if self.as_generator:
+                return self._gen(event)
+            return self._step(event)
+
+        def _gen(self, event):
+            yield 0.01
+            return self._step(event)
+
+    f = Faulty("faulty", rng.randint(1, 6), rng.random() < 0.5)
+    sim = Simulation(entities=[f], end_time=Instant.from_seconds(10.0))
+    sim.schedule(Event(time=Instant.Epoch, event_type="step", target=f))
+    _KEEP.append([Event(time=Instant.from_seconds(1.0), event_type="orphan", target=f) for _ in range(rng.randint(0, 9))])
+    try:
+        sim.run()
+    except ValueError:
+        pass
+    _KEEP.append(sim)
 
 
 def _decoy(sim):
